@@ -33,6 +33,7 @@ def AppState.terminal : AppState → Bool
 `localapp` a bare `LocalApp`. -/
 inductive Wrapper where
   | base | localapp | clustalo | muscle3 | muscle5 | mafft
+  | tantan     -- a LocalApp subclass outside the MSA family (TantanApp), driven with a fake binary as well
   deriving DecidableEq, Repr
 
 /-- Scripted behaviour of the external program. -/
@@ -60,9 +61,10 @@ def Wrapper.mro : Wrapper → List String
   | .muscle3 => ["MuscleApp", "MSAApp", "LocalApp", "Application"]
   | .muscle5 => ["Muscle5App", "MSAApp", "LocalApp", "Application"]
   | .mafft => ["MafftApp", "MSAApp", "LocalApp", "Application"]
+  | .tantan => ["TantanApp", "LocalApp", "Application"]
 
 def Wrapper.isMsa : Wrapper → Bool
-  | .base | .localapp => false
+  | .base | .localapp | .tantan => false
   | _ => true
 
 open AppState in
@@ -78,6 +80,22 @@ def table : List (String × String × Option (List AppState)) := [
   ("Application", "run", none),
   ("Application", "start", some [created]),
   ("Application", "wait_interval", none),
+  ("BlastWebApp", "clean_up", none),
+  ("BlastWebApp", "evaluate", none),
+  ("BlastWebApp", "get_alignments", some [joined]),
+  ("BlastWebApp", "get_xml_response", some [joined]),
+  ("BlastWebApp", "is_finished", none),
+  ("BlastWebApp", "run", none),
+  ("BlastWebApp", "set_entrez_query", some [created]),
+  ("BlastWebApp", "set_gap_penalty", some [created]),
+  ("BlastWebApp", "set_match_reward", some [created]),
+  ("BlastWebApp", "set_max_expect_value", some [created]),
+  ("BlastWebApp", "set_max_results", some [created]),
+  ("BlastWebApp", "set_mismatch_penalty", some [created]),
+  ("BlastWebApp", "set_substitution_matrix", some [created]),
+  ("BlastWebApp", "set_threshold", some [created]),
+  ("BlastWebApp", "set_word_size", some [created]),
+  ("BlastWebApp", "wait_interval", none),
   ("ClustalOmegaApp", "clean_up", none),
   ("ClustalOmegaApp", "evaluate", none),
   ("ClustalOmegaApp", "full_matrix_calculation", some [created]),
@@ -90,6 +108,20 @@ def table : List (String × String × Option (List AppState)) := [
   ("ClustalOmegaApp", "supports_custom_protein_matrix", none),
   ("ClustalOmegaApp", "supports_nucleotide", none),
   ("ClustalOmegaApp", "supports_protein", none),
+  ("DsspApp", "annotate_sse", none),
+  ("DsspApp", "clean_up", none),
+  ("DsspApp", "evaluate", none),
+  ("DsspApp", "get_sse", some [joined]),
+  ("DsspApp", "run", none),
+  ("FastaDumpApp", "fetch", none),
+  ("FastaDumpApp", "get_fasta", some [joined]),
+  ("FastaDumpApp", "get_fastq_dump_options", some [created]),
+  ("FastaDumpApp", "get_prefetch_options", some [created]),
+  ("FastaDumpApp", "get_sequences", some [joined]),
+  ("FastqDumpApp", "fetch", none),
+  ("FastqDumpApp", "get_fastq", some [joined]),
+  ("FastqDumpApp", "get_sequences", some [joined]),
+  ("FastqDumpApp", "get_sequences_and_scores", some [joined]),
   ("LocalApp", "add_additional_options", some [created]),
   ("LocalApp", "clean_up", none),
   ("LocalApp", "evaluate", none),
@@ -147,8 +179,62 @@ def table : List (String × String × Option (List AppState)) := [
   ("MuscleApp", "supports_custom_protein_matrix", none),
   ("MuscleApp", "supports_nucleotide", none),
   ("MuscleApp", "supports_protein", none),
+  ("RNAalifoldApp", "clean_up", none),
+  ("RNAalifoldApp", "compute_secondary_structure", none),
+  ("RNAalifoldApp", "evaluate", none),
+  ("RNAalifoldApp", "get_base_pairs", some [joined]),
+  ("RNAalifoldApp", "get_consensus_sequence_string", some [joined]),
+  ("RNAalifoldApp", "get_covariance_energy", some [joined]),
+  ("RNAalifoldApp", "get_dot_bracket", some [joined]),
+  ("RNAalifoldApp", "get_free_energy", some [joined]),
+  ("RNAalifoldApp", "run", none),
+  ("RNAalifoldApp", "set_constraints", some [created]),
+  ("RNAalifoldApp", "set_temperature", some [created]),
+  ("RNAfoldApp", "clean_up", none),
+  ("RNAfoldApp", "compute_secondary_structure", none),
+  ("RNAfoldApp", "evaluate", none),
+  ("RNAfoldApp", "get_base_pairs", some [joined]),
+  ("RNAfoldApp", "get_dot_bracket", some [joined]),
+  ("RNAfoldApp", "get_free_energy", some [joined]),
+  ("RNAfoldApp", "run", none),
+  ("RNAfoldApp", "set_constraints", some [created]),
+  ("RNAfoldApp", "set_temperature", some [created]),
+  ("RNAplotApp", "clean_up", none),
+  ("RNAplotApp", "compute_coordinates", none),
+  ("RNAplotApp", "evaluate", none),
+  ("RNAplotApp", "get_coordinates", some [joined]),
+  ("RNAplotApp", "run", none),
+  ("RNAplotApp", "set_layout_type", some [created]),
+  ("TantanApp", "clean_up", none),
+  ("TantanApp", "evaluate", none),
+  ("TantanApp", "get_mask", some [joined]),
+  ("TantanApp", "mask_repeats", none),
+  ("TantanApp", "run", none),
+  ("VinaApp", "clean_up", none),
+  ("VinaApp", "dock", none),
+  ("VinaApp", "evaluate", none),
+  ("VinaApp", "get_energies", some [joined]),
+  ("VinaApp", "get_flexible_residue_models", some [joined]),
+  ("VinaApp", "get_ligand_coord", some [joined]),
+  ("VinaApp", "get_ligand_models", some [joined]),
+  ("VinaApp", "get_receptor_coord", some [joined]),
+  ("VinaApp", "run", none),
+  ("VinaApp", "set_energy_range", some [created]),
+  ("VinaApp", "set_exhaustiveness", some [created]),
+  ("VinaApp", "set_max_number_of_models", some [created]),
+  ("VinaApp", "set_seed", some [created]),
   ("WebApp", "app_url", none),
-  ("WebApp", "violate_rule", none)]
+  ("WebApp", "violate_rule", none),
+  ("_DumpApp", "clean_up", none),
+  ("_DumpApp", "evaluate", none),
+  ("_DumpApp", "get_fastq_dump_options", some [created]),
+  ("_DumpApp", "get_file_paths", some [joined]),
+  ("_DumpApp", "get_prefetch_options", some [created]),
+  ("_DumpApp", "get_sequences", some [joined]),
+  ("_DumpApp", "is_finished", none),
+  ("_DumpApp", "join", some [running, finished]),
+  ("_DumpApp", "run", none),
+  ("_DumpApp", "wait_interval", none)]
 
 /-- Guard of `cls.m` in a table, if that class defines `m`. -/
 def lookupIn (tbl : List (String × String × Option (List AppState))) (cls m : String) :
@@ -218,6 +304,7 @@ def errEval : Err := .other "EvalFailure"
 /-- Temp files created by `__init__` (NamedTemporaryFile(delete=False)). -/
 def initFiles : Wrapper → Nat
   | .base => 1 | .localapp => 0 | .clustalo => 7 | .muscle3 => 5 | .muscle5 => 3 | .mafft => 3
+  | .tantan => 1     -- `_in_file`; the matrix file exists only when a matrix is passed (not in the driven configuration)
 
 /-- The program never exits on its own. -/
 def hangs (t : Tool) : Bool := t = .hang ∨ t = .hangIgnoreTerm
@@ -307,6 +394,10 @@ def evaluate (s : St) : Except Err (Option (List Nat × List Nat)) :=
     else .ok none
   | .localapp =>
     -- LocalApp.evaluate: `if exit_code != 0: raise SubprocessError`
+    if failingExit s.tool then .error errSubprocess else .ok none
+  | .tantan =>
+    -- LocalApp.evaluate, then the masks are read from stdout (result parsing of the non-MSA wrappers is out of scope:
+    -- the environment only offers output TantanApp accepts)
     if failingExit s.tool then .error errSubprocess else .ok none
   | w =>
     if failingExit s.tool then .error errSubprocess else
